@@ -11,7 +11,9 @@ Kinds of cases
   maptext  raw (mutated) mapping-file lines: parser vs model
   cli      `_add_metadata` (the add-metadata command) with mapping files for one or both axes;
            thorough: the `biom add-metadata` subprocess
-  prog     histories of 2-4 add/del steps over several tables (receiver, donor, partition()
+  (del cases may be preceded by READS of keys an id lacks - entries are default-None mappings,
+           the read materialises `key: None` - and specs may hold keys with the explicit value None)
+  prog     histories of 2-4 add/del/read steps over several tables (receiver, donor, partition()
            siblings and their parent) where mapping values are the metadata OBJECTS another table
            (or the receiver) holds for an id - the same object for two ids, objects of another
            table - and ALL tables are observed after every step (aliasing between ids / tables)
@@ -244,6 +246,8 @@ def run_impl(c):
             return snap(t)
         if k == 'del':
             t = tables.build(c['spec'])
+            for ax, id_, key in c.get('reads', []):
+                do_read(t, ax, id_, key)
             try:
                 t.del_metadata(keys=c['keys'], axis=c['axis'])
             except Exception as e:
@@ -291,6 +295,13 @@ def run_impl(c):
             shutil.rmtree(tmp, ignore_errors=True)
 
 
+def do_read(t, axis, id_, key):
+    """t.metadata(id, axis)[key]: entries are default-None mappings, a missing key gets materialised"""
+    md = t.metadata(id_, axis=axis)
+    if md is not None:
+        md[key]
+
+
 def partition_specs(spec, key):
     """what Table.partition(lambda i, m: m[key]) on the sample axis must give, group values sorted"""
     out = []
@@ -319,7 +330,9 @@ def run_prog(c):
     out = []
     for st in c['steps']:
         try:
-            if st[0] == 'add':
+            if st[0] == 'read':
+                do_read(tabs[st[1]], st[2], st[3], st[4])
+            elif st[0] == 'add':
                 _, ti, axis, items = st
                 m = {}
                 for id_, src in items:
@@ -374,6 +387,10 @@ def encode(c):
     if k == 'add':
         return [0, enc_table(c['spec']), [[cps(i), enc_entry(e)] for i, e in c['mapping']],
                 {'observation': 0, 'sample': 1}.get(c['axis'], 7)]
+    if k == 'del' and c.get('reads'):
+        steps = [[2, 0, AX[ax], cps(i), cps(key)] for ax, i, key in c['reads']]
+        steps.append([1, 0, [] if c['keys'] is None else [[cps(x) for x in c['keys']]], AX[c['axis']]])
+        return [5, [enc_table(c['spec'])], steps]
     if k == 'del':
         return [1, enc_table(c['spec']), [] if c['keys'] is None else [[cps(x) for x in c['keys']]], AX.get(c['axis'], 7)]
     if k == 'map':
@@ -386,7 +403,9 @@ def encode(c):
     if k == 'prog':
         steps = []
         for st in c['steps']:
-            if st[0] == 'add':
+            if st[0] == 'read':
+                steps.append([2, st[1], AX[st[2]], cps(st[3]), cps(st[4])])
+            elif st[0] == 'add':
                 items = [[cps(i), [0, enc_entry(src[1])] if src[0] == 'lit' else [1, src[1], AX[src[2]], cps(src[3])]]
                          for i, src in st[3]]
                 steps.append([0, st[1], AX[st[2]], items])
@@ -404,6 +423,8 @@ def encode(c):
 
 def decode(tree, c):
     k = c['kind']
+    if k == 'del' and c.get('reads'):
+        return dec_table(tree[-1][0])
     if k in ('add', 'del', 'cli'):
         r = dec_result(tree, dec_table)
         if k == 'cli' and c.get('via') == 'subprocess' and isinstance(r, dict):
@@ -473,7 +494,11 @@ def oracle(c, obs):
         else:
             for ax, ids_key, md_key in (('observation', 'oids', 'omd'), ('sample', 'sids', 'smd')):
                 n = len(spec[ids_key])
+                had = norm_md(spec.get(md_key)) is not None
                 old = md_or_empty(norm_md(spec.get(md_key)), n)
+                for rax, rid, rkey in c.get('reads', []):
+                    if rax == ax and had and rid in spec[ids_key]:
+                        old[spec[ids_key].index(rid)].setdefault(rkey, None)     # what the read left behind
                 got = md_or_empty(obs[md_key], n)
                 if c['axis'] in (ax, 'whole'):
                     want = [{} if c['keys'] is None else {kk: v for kk, v in e.items() if kk not in c['keys']} for e in old]
@@ -531,7 +556,12 @@ def oracle_prog(c, obs):
         if not isinstance(state, list) or (state and state[0] == 'err'):
             return ['step %d %r failed: %r' % (n, st[0], state)]
         ti = st[1]
-        if st[0] == 'add':
+        if st[0] == 'read':
+            t = ref[ti]
+            ids_key, md_key = ('oids', 'omd') if st[2] == 'observation' else ('sids', 'smd')
+            if t[md_key] is not None and any(t[md_key]):
+                t[md_key][t[ids_key].index(st[3])].setdefault(st[4], None)
+        elif st[0] == 'add':
             axis, items = st[2], st[3]
             ids_key, md_key = ('oids', 'omd') if axis == 'observation' else ('sids', 'smd')
             m = {}
@@ -653,6 +683,10 @@ VALS = ['x', 'y z', 'ü', '', 'k__A; p__B', 7, -3, 0, 0.5, 1.25, -2.0, True, Non
 NEWKEYS = ['new', 'k2', 'Tâx', 'a b']
 
 
+def md_ids(spec, axis):
+    return spec['oids'] if axis == 'observation' else spec['sids']
+
+
 def axis_keys(spec, axis):
     md = spec.get('omd' if axis == 'observation' else 'smd') or []
     ks = []
@@ -672,6 +706,12 @@ def gen_spec(rng):
             md[i] = rng.choice([None, {}])
         if md is not None and rng.random() < 0.05:
             spec[key] = [None for _ in md]
+        md = spec.get(key)
+        if md is not None and rng.random() < 0.2:
+            # a key stored WITH the value None (JSON null, or what reading a missing key leaves behind)
+            e = rng.choice(md)
+            if e:
+                e[rng.choice(list(e) + ['nul'])] = None
     return spec
 
 
@@ -724,7 +764,19 @@ def gen_del(rng):
             keys = list(dict.fromkeys(present))         # everything: the axis collapses to None
     if rng.random() < 0.04:
         axis = 'bogus'
-    return {'kind': 'del', 'spec': spec, 'keys': keys, 'axis': axis}
+    c = {'kind': 'del', 'spec': spec, 'keys': keys, 'axis': axis}
+    if axis != 'bogus' and rng.random() < 0.4:
+        # history: a key some id does not have is READ first (default-None entries materialise it)
+        reads = []
+        for _ in range(rng.randint(1, 3)):
+            ax = rng.choice(['sample', 'observation'])
+            pool = axis_keys(spec, ax) + ['pH', 'grp']
+            key = rng.choice(pool)
+            reads.append([ax, rng.choice(md_ids(spec, ax)), key])
+            if keys is not None and rng.random() < 0.8 and key not in keys:
+                keys.append(key)
+        c['reads'] = reads
+    return c
 
 
 COLS = ['taxonomy', 'pH', 'Days', 'Path ways', 'Désc', 'BarcodeSequence', 'x', 'y']
@@ -861,10 +913,6 @@ def gen_cli(rng, via=None):
     return c
 
 
-def md_ids(spec, axis):
-    return spec['oids'] if axis == 'observation' else spec['sids']
-
-
 def gen_prog(rng):
     scenario = rng.choice(['same_object', 'same_object', 'other_table', 'siblings', 'siblings', 'mixed'])
     derive = None
@@ -917,6 +965,14 @@ def gen_prog(rng):
         steps.append(['add', ti, ax, [[chosen[0], ['lit', {'barcode': 'ACGT', rng.choice(NEWKEYS): 5}]]]])
         if scenario in ('other_table', 'mixed') and src[0] == 'ref':
             steps.append(['add', src[1], src[2], [[src[3], ['lit', {'late': True}]]]])
+    if rng.random() < 0.35:
+        # read a key an id lacks, then delete that key: nothing of it may stay behind
+        ti = rng.randrange(ntab)
+        ax = rng.choice(['observation', 'sample'])
+        key = rng.choice(['tax', 'g', 'k', 'barcode', 'pH'])
+        for id_ in rng.sample(md_ids(all_specs[ti], ax), min(2, len(md_ids(all_specs[ti], ax)))):
+            steps.append(['read', ti, ax, id_, key])
+        steps.append(['del', ti, [key], rng.choice([ax, 'whole'])])
     while len(steps) < 4 and rng.random() < 0.5:
         ti = rng.randrange(ntab)
         ax = rng.choice(['observation', 'sample'])
@@ -990,6 +1046,10 @@ def classify(c):
     if k == 'del':
         tags.append('axis:' + c['axis'])
         tags.append('keys:' + ('None' if c['keys'] is None else str(min(len(c['keys']), 3))))
+        if c.get('reads'):
+            tags.append('del:after-read')
+        if any(v is None for md in (c['spec'].get('omd'), c['spec'].get('smd')) for e in (md or []) for v in (e or {}).values()):
+            tags.append('del:none-valued-key')
     if k in ('map', 'maptext'):
         tags.append('strip_f:%s%s' % ('q' if c['sq'] else '-', 's' if c['ss'] else '-'))
         tags.append('override' if c['header'] else 'file-header')
@@ -1004,6 +1064,8 @@ def classify(c):
     if k == 'prog':
         tags.append('prog:' + c.get('scenario', '?'))
         tags.append('steps:%d' % len(c['steps']))
+        if any(st[0] == 'read' for st in c['steps']):
+            tags.append('prog:read-then-del')
         if any(src[0] == 'ref' for st in c['steps'] if st[0] == 'add' for _, src in st[3]):
             tags.append('prog:object-reference')
     if k == 'cli':
@@ -1025,6 +1087,9 @@ def shrink(c):
     if k == 'del' and c['keys']:
         for i in range(len(c['keys'])):
             yield dict(c, keys=c['keys'][:i] + c['keys'][i + 1:])
+    if k == 'del' and c.get('reads'):
+        for i in range(len(c['reads'])):
+            yield dict(c, reads=c['reads'][:i] + c['reads'][i + 1:])
     if k in ('add', 'del', 'cli'):
         spec = c['spec']
         if spec.get('layout') and spec['layout'] != ['dense']:
